@@ -111,30 +111,31 @@ type Violation struct {
 }
 
 type RunResult struct {
-	Cfg         RunConfig
-	Obligations []*Obligation
-	Queries     []QueryRecord
-	Violations  []*Violation
-	KnownHits   map[string]string // finding id -> label
-	Inconcl     []string
-	Funcs       []string
-	Intrinsics  map[string]int
-	NInstr      int
-	NStates     int
-	NMerges     int
-	NFeas       int
-	NTerms      int
-	Threads     int
-	SchedSteps  int
-	Segments    int
-	ExecSecs    float64
-	SolveSecs   float64
-	Observes    []Observation
-	ex          *Exec
-	Aborted     bool // time budget exceeded: nothing is claimed for this run
-	Covers      int
-	Notes       []string
-	UsedRand    bool // the code under test drew from math/rand
+	Cfg           RunConfig
+	Obligations   []*Obligation
+	Queries       []QueryRecord
+	Violations    []*Violation
+	KnownHits     map[string]string // finding id -> label
+	Inconcl       []string
+	Funcs         []string
+	Intrinsics    map[string]int
+	NInstr        int
+	NStates       int
+	NMerges       int
+	NFeas         int
+	NTerms        int
+	Threads       int
+	SchedSteps    int
+	Segments      int
+	ExecSecs      float64
+	SolveSecs     float64
+	Observes      []Observation
+	ex            *Exec
+	Aborted       bool // time budget exceeded: nothing is claimed for this run
+	Covers        int
+	Notes         []string
+	UsedRand      bool // the code under test drew from math/rand
+	CrossTimeouts int  // queries the cross-check solver could not answer in time
 }
 
 // Run executes a harness symbolically and discharges its obligations. A run in small-int mode
@@ -564,7 +565,15 @@ func (ex *Exec) discharge(res *RunResult, cfg RunConfig) {
 					}
 					s.Pop()
 					if len(s.Errors) > 0 {
-						note(fmt.Sprintf("solver %s error: %s", s.Name, s.Errors[0]))
+						if si > 0 && strings.Contains(s.Errors[0], "did not answer within its time limit") {
+							// the cross-check solver ran out of time: the query is simply not
+							// cross-checked (only a disagreement is inconclusive)
+							mu.Lock()
+							res.CrossTimeouts++
+							mu.Unlock()
+						} else {
+							note(fmt.Sprintf("solver %s error: %s", s.Name, s.Errors[0]))
+						}
 						s.Errors = nil
 						r = Unknown
 					}
